@@ -44,6 +44,9 @@ type Harness interface {
 
 var registry = map[string]Harness{}
 
+// extra sub-commands (source-fact extractors etc.): name -> func(args)
+var commands = map[string]func(args []string){}
+
 func register(prop string, h Harness) { registry[prop] = h }
 
 func readCases(path string) ([]Case, error) {
@@ -74,9 +77,19 @@ func readCases(path string) ([]Case, error) {
 }
 
 func main() {
+	if len(os.Args) >= 2 {
+		if f, ok := commands[os.Args[1]]; ok {
+			f(os.Args[2:])
+			return
+		}
+	}
 	if len(os.Args) < 3 {
 		fmt.Fprintln(os.Stderr, "usage: gpverif run <prop> [-seed n] [-tier quick|thorough] [-dir d] [-cases f]...")
 		os.Exit(2)
+	}
+	if f, ok := commands[os.Args[1]]; ok {
+		f(os.Args[2:])
+		return
 	}
 	cmd, prop := os.Args[1], os.Args[2]
 	fs := flag.NewFlagSet(cmd, flag.ExitOnError)
